@@ -35,6 +35,11 @@ func mkBuf(hist string) (gopacket.SerializeBuffer, bool) {
 		for i := range q {
 			q[i] = byte(v)
 		}
+		// the earlier use also recorded a layer stack (as SerializeLayers / SerializePacket do); Clear must forget it:
+		// IPv6.SerializeTo consults b.Layers() to decide whether its hop-by-hop header was already written
+		b.PushLayer(gopacket.LayerTypePayload)
+		b.PushLayer(layers.LayerTypeIPv6HopByHop)
+		b.PushLayer(layers.LayerTypeIPv6)
 		b.Clear()
 		return b, true
 	case strings.HasPrefix(hist, "sized"):
